@@ -5,6 +5,7 @@ package witness
 import (
 	"fmt"
 	"net"
+	"sync"
 	"testing"
 	"time"
 
@@ -175,5 +176,140 @@ func TestF25_ClunkInFlightAtDisconnectDestroysTwice(t *testing.T) {
 	o.mu.Unlock()
 	if n != 1 {
 		t.Fatalf("fid 1 reported destroyed %d times, want once", n)
+	}
+}
+
+type countDestroy struct {
+	*ops
+	destroyed map[uint32]int
+}
+
+func (o countDestroy) FidDestroy(f *g.SrvFid) {
+	o.mu.Lock()
+	o.destroyed[g.VerifFidNo(f)]++
+	o.mu.Unlock()
+}
+
+func (o countDestroy) count(fid uint32) int {
+	o.mu.Lock()
+	defer o.mu.Unlock()
+	return o.destroyed[fid]
+}
+
+// F-29: the client disconnects while the request that created a fid sits between retain's test of
+// the connection and its increment: Conn.close skips the fid (still pending), retain then keeps
+// it — on a connection that is gone, so nobody ever clunks it and it is never reported destroyed.
+func TestF29_DisconnectInsideRetainLeaksTheFid(t *testing.T) {
+	o := countDestroy{&ops{gate: map[string]chan bool{}}, map[uint32]int{}}
+	srv := &g.Srv{Msize: 8192}
+	if !srv.Start(o) {
+		t.Fatal("Start")
+	}
+	a, c := net.Pipe()
+	srv.NewConn(conn{a})
+	version(t, c, 8192, "9P2000")
+	attach(t, c, 1)
+	reached, release, closed := make(chan bool), make(chan bool), make(chan bool)
+	g.VerifSetHook(func(p string, args ...interface{}) {
+		switch p {
+		case "fid.retain":
+			if f, ok := args[1].(*g.SrvFid); ok && g.VerifFidNo(f) == 2 {
+				close(reached)
+				<-release
+			}
+		case "close.end":
+			close(closed)
+		}
+	})
+	defer g.VerifSetHook(nil)
+	fc := g.NewFcall(8192)
+	g.PackTwalk(fc, 1, 2, nil)
+	send(t, c, fc, 7)
+	<-reached
+	c.Close()
+	<-closed
+	close(release)
+	time.Sleep(100 * time.Millisecond)
+	if n := o.count(2); n != 1 {
+		t.Fatalf("fid 2, created while the client disconnected, reported destroyed %d times, want once", n)
+	}
+	if n := o.count(1); n != 1 {
+		t.Fatalf("fid 1 reported destroyed %d times, want once", n)
+	}
+}
+
+// F-30: DecRef removes the table entry by number. A request that uses a fid while its Tclunk is
+// between dropping the last reference and deleting the entry takes a reference on the dying fid;
+// when that request ends, its DecRef deletes whatever now lives under the number — a fid the
+// client has created since. That fid is then unknown to the client and never reported destroyed.
+func TestF30_ReleaseOfADyingFidRemovesItsSuccessor(t *testing.T) {
+	o := countDestroy{&ops{gate: map[string]chan bool{}}, map[uint32]int{}}
+	srv := &g.Srv{Msize: 8192}
+	if !srv.Start(o) {
+		t.Fatal("Start")
+	}
+	a, c := net.Pipe()
+	srv.NewConn(conn{a})
+	version(t, c, 8192, "9P2000")
+	attach(t, c, 1)
+	if r := rpc(t, c, false, 2, func(fc *g.Fcall) error { return g.PackTwalk(fc, 1, 5, nil) }); r.Type != g.Rwalk {
+		t.Fatalf("walk: %v", r)
+	}
+	reached := []chan bool{make(chan bool), make(chan bool)}
+	release := []chan bool{make(chan bool), make(chan bool)}
+	var mu sync.Mutex
+	arrivals := 0
+	g.VerifSetHook(func(p string, args ...interface{}) {
+		if p != "fid.dec.zero" {
+			return
+		}
+		f, ok := args[1].(*g.SrvFid)
+		if !ok || g.VerifFidNo(f) != 5 {
+			return
+		}
+		mu.Lock()
+		i := arrivals
+		arrivals++
+		mu.Unlock()
+		if i < 2 {
+			close(reached[i])
+			<-release[i]
+		}
+	})
+	defer g.VerifSetHook(nil)
+	fc := g.NewFcall(8192)
+	g.PackTclunk(fc, 5)
+	send(t, c, fc, 7)
+	<-reached[0] // the clunk has dropped the last reference; the entry is still in the table
+	fs := g.NewFcall(8192)
+	g.PackTstat(fs, 5)
+	send(t, c, fs, 8)
+	select {
+	case <-reached[1]: // the stat found the dying fid, used it and has dropped its reference
+	case <-time.After(2 * time.Second):
+		t.Skip("the stat did not find the dying fid: nothing to show")
+	}
+	close(release[0])
+	if r := recv(t, c, false); r.Type != g.Rclunk {
+		t.Fatalf("clunk: %v", r)
+	}
+	time.Sleep(50 * time.Millisecond)
+	// the number is free again: the client makes a new fid 5
+	if r := rpc(t, c, false, 9, func(fc *g.Fcall) error { return g.PackTwalk(fc, 1, 5, nil) }); r.Type != g.Rwalk {
+		t.Fatalf("second walk to fid 5: %v", r)
+	}
+	close(release[1])
+	if r := recv(t, c, false); r.Type != g.Rstat {
+		t.Fatalf("stat on the dying fid: %v", r)
+	}
+	time.Sleep(50 * time.Millisecond)
+	r := rpc(t, c, false, 10, func(fc *g.Fcall) error { return g.PackTstat(fc, 5) })
+	if r.Type != g.Rstat {
+		t.Errorf("Tstat on the fid just created by a successful Twalk: %d %q, want Rstat", r.Type, r.Error)
+	}
+	c.Close()
+	time.Sleep(100 * time.Millisecond)
+	if n := o.count(5); n != 2 {
+		t.Errorf("fid number 5 (two fids in turn) reported destroyed %d times, want twice", n)
 	}
 }
